@@ -855,7 +855,7 @@ Definition ph_h (n : nat) (t : string) : dblock := DHeader (0, 1) n [Str t].
 Definition ph_ref (k : string) : dblock := DPara (0, 1) [Link k "" Regular [Str k]].
 Definition ph_p (t : string) : dblock := DPara (0, 1) [Str t].
 
-Definition order_notes : list op := [("x.md", None, [ph_h 1 "X"]); ("y.md", None, [ph_h 1 "Y"])].
+Definition order_notes : list op := [("x", None, [ph_h 1 "X"]); ("y", None, [ph_h 1 "Y"])].
 Definition order_ops : list op := [("x", None, [ph_h 1 "X"])].
 
 Lemma order_same_texts k : final_texts order_notes order_ops k = final_texts order_notes [] k.
@@ -894,8 +894,8 @@ Definition ph_A : list dblock :=
 Definition ph_B : list dblock := [ph_h 1 "B"; ph_h 2 "B2"; ph_h 3 "B3"; DQuote (0, 1) [ph_h 1 "q"]; ph_h 2 "B2"].
 Definition ph_C : list dblock := [ph_p "pre"; ph_h 2 "C"; ph_h 1 "C1"; ph_ref "b"].
 
-Definition ph_fresh : list op := [("a.md", None, ph_A); ("b.md", None, ph_B); ("c.md", None, ph_C)].
-Definition ph_start : list op := [("a.md", Some "m: 0", [ph_h 1 "Z"; ph_ref "c"])].
+Definition ph_fresh : list op := [("a", None, ph_A); ("b", None, ph_B); ("c", None, ph_C)].
+Definition ph_start : list op := [("a", Some "m: 0", [ph_h 1 "Z"; ph_ref "c"])].
 Definition ph_ops : list op :=
   [("c", None, [ph_ref "a"]); ("c", None, ph_C); ("a", None, [ph_h 1 "Z"]); ("a", None, ph_A);
    ("b", None, [ph_h 1 "old"]); ("b", Some "m", ph_B)].
